@@ -275,6 +275,8 @@ def gen_schedule(seed: int, scenario, j: int) -> Dict[str, Any]:
     spec = {"profile": prof, "seed": rng.randrange(1 << 30)}
     if prof == "starved":
         spec["starved"] = rng.choice(scenario["sims"])["sid"]
+    if rng.random() < 0.25:
+        spec["split"] = True
     return spec
 
 
